@@ -33,23 +33,88 @@ fn c19_7b_range() {
     kani::cover!(x < 0.5 && matches!(e, Easing::InOutPowf(_)));
 }
 
-// @ob id=C19.7c,C06.4c strength=axioms axioms=POW tier=quick timeout=900 fn=tween.rs::Easing::apply
-// @req as above, 0 <= x1 <= x2 <= 1
-// @ens apply(x1) <= apply(x2) (monotone on [0,1], including across the midpoint of the in-out curves)
+fn simple_easing() -> Easing {
+    let pi: i32 = kani::any();
+    kani::assume(pi >= 1 && pi <= 64);
+    let pf = any_f64_in(1.0e-3, 64.0);
+    match kani::any::<u8>() % 5 { 0 => Easing::Linear, 1 => Easing::InPowi(pi), 2 => Easing::OutPowi(pi), 3 => Easing::InPowf(pf), _ => Easing::OutPowf(pf) }
+}
+
+fn inout_easing() -> Easing {
+    let pi: i32 = kani::any();
+    kani::assume(pi >= 1 && pi <= 64);
+    let pf = any_f64_in(1.0e-3, 64.0);
+    if kani::any() { Easing::InOutPowi(pi) } else { Easing::InOutPowf(pf) }
+}
+
+// @ob id=C19.7c,C06.4c strength=axioms axioms=POW tier=quick fn=tween.rs::Easing::apply
+// @req Linear, InPowi, OutPowi, InPowf, OutPowf with positive powers; 0 <= x1 <= x2 <= 1
+// @ens apply(x1) <= apply(x2) (monotone on [0,1])
 #[kani::proof]
 #[kani::unwind(8)]
 #[kani::stub(f64::powf, powf64_model)]
 #[kani::stub(f64::powi, powi64_model)]
-fn c19_7c_monotone() {
-    let e = any_easing();
+fn c19_7c_monotone_in_out() {
+    let e = simple_easing();
     let x1 = any_f64_in(0.0, 1.0);
     let x2 = any_f64_in(0.0, 1.0);
     kani::assume(x1 <= x2);
-    let y1 = e.apply(x1);
-    let y2 = e.apply(x2);
-    assert!(y1 <= y2, "C19.7c: easing is monotone on [0,1]");
-    kani::cover!(x1 < 0.5 && x2 > 0.5 && matches!(e, Easing::InOutPowf(_)));
+    assert!(e.apply(x1) <= e.apply(x2), "C19.7c: easing is monotone on [0,1]");
     kani::cover!(x1 < x2 && matches!(e, Easing::OutPowi(_)));
+    kani::cover!(x1 < x2 && matches!(e, Easing::InPowf(_)));
+}
+
+// @ob id=C19.7d,C06.4f strength=axioms axioms=POW tier=thorough timeout=3600 fn=tween.rs::Easing::apply
+// @req InOutPowi, InOutPowf with positive powers; 0 <= x1 <= x2 <= 1
+// @ens apply(x1) <= apply(x2), including across the midpoint where the two halves meet
+#[kani::proof]
+#[kani::unwind(8)]
+#[kani::stub(f64::powf, powf64_model)]
+#[kani::stub(f64::powi, powi64_model)]
+fn c19_7d_monotone_inout() {
+    let e = inout_easing();
+    let x1 = any_f64_in(0.0, 1.0);
+    let x2 = any_f64_in(0.0, 1.0);
+    kani::assume(x1 <= x2);
+    assert!(e.apply(x1) <= e.apply(x2), "C19.7d: in-out easing is monotone on [0,1]");
+    kani::cover!(x1 < 0.5 && x2 > 0.5);
+}
+
+// @ob id=C19.7e,C06.4g strength=axioms axioms=POW tier=quick fn=tween.rs::Easing::apply
+// @req InOutPowi, InOutPowf with positive powers
+// @ens the two halves meet at the midpoint: apply(0.5) == 0.5 exactly, the first half stays <= 0.5 and the second >= 0.5
+#[kani::proof]
+#[kani::unwind(8)]
+#[kani::stub(f64::powf, powf64_model)]
+#[kani::stub(f64::powi, powi64_model)]
+fn c19_7e_inout_midpoint() {
+    let e = inout_easing();
+    assert!(e.apply(0.5) == 0.5, "C19.7e: in-out easings pass through (0.5, 0.5)");
+    let x = any_f64_in(0.0, 1.0);
+    let y = e.apply(x);
+    if x < 0.5 { assert!(y <= 0.5, "C19.7e: first half below the midpoint"); } else { assert!(y >= 0.5, "C19.7e: second half above the midpoint"); }
+    kani::cover!(x < 0.5);
+    kani::cover!(x > 0.5);
+}
+
+// @ob id=C06.4e strength=axioms axioms=POW tier=quick fn=tween.rs::Tween::value
+// @req any built-in easing with a positive power; duration = whole seconds in 1..=1000 (+0 or 1/2 s); 0 <= time <= duration
+// @ens value(time) in [0,1]; value(0) == 0
+#[kani::proof]
+#[kani::unwind(8)]
+#[kani::stub(f64::powf, powf64_model)]
+#[kani::stub(f64::powi, powi64_model)]
+fn c06_4e_tween_value_range() {
+    let s: u64 = kani::any();
+    kani::assume(s >= 1 && s <= 1000);
+    let d = Duration::new(s, if kani::any() { 0 } else { 500_000_000 });
+    let tw = Tween { start_time: StartTime::Immediate, duration: d, easing: any_easing() };
+    assert!(tw.value(0.0) == 0.0, "C06.4e: a tween starts at its start value");
+    let t = any_f64_in(0.0, 1000.5);
+    kani::assume(t <= d.as_secs_f64());
+    let v = tw.value(t);
+    assert!(v >= 0.0 && v <= 1.0, "C06.4e: the eased progress stays in [0,1] until the end of the tween");
+    kani::cover!(t > 0.0);
 }
 
 // @ob id=C06.4d strength=complete tier=quick fn=tween.rs::Easing::apply
